@@ -722,6 +722,17 @@ func (e *Engine) solveAll(obls []*Obl) {
 				return
 			}
 			o.Result = runQuery(e.outDir+"/smt", o.Name, o.query(), to, o.Quant, e.seed)
+			if o.Cover && o.Result.Status == "unsat" && len(o.PreInsts) > 0 {
+				// inconsistent after the assumption: is the site reachable at all?
+				post := o.Insts
+				o.Insts = o.PreInsts
+				pre := runQuery(e.outDir+"/smt", o.Name+".pre", o.query(), to, o.Quant, e.seed)
+				o.Insts = post
+				if pre.Status == "unsat" {
+					o.Result.Status = "dead"
+					o.Result.Raw = "call site unreachable (dead code): not a vacuity problem"
+				}
+			}
 		}()
 	}
 	wg.Wait()
@@ -731,7 +742,7 @@ func (e *Engine) solveAll(obls []*Obl) {
 // unsatisfiable; an undecided cover (quantifiers: unknown/timeout) is reported as undecided, not as a failure.
 func (o *Obl) ok() bool {
 	if o.Cover {
-		return o.Result.Status != "unsat" && o.Result.Status != "stale"
+		return o.Result.Status != "unsat" && o.Result.Status != "stale" // "dead" (unreachable site) is fine
 	}
 	return o.Result.Status == "unsat"
 }
